@@ -39,3 +39,16 @@ Theorem C07_pinned_refuted : exists s, pfrees (prun s) = 2.
 Proof. exact Drop.pinned_protocol_refuted. Qed.
 Example C07_relaxed_rmw_is_bad : uaf (dexec false false (mkB3 true false true) [TP; TC; TP; TC; TC]) = true.
 Proof. exact Drop.relaxed_rmw_is_bad. Qed.
+
+(** observing a peer as dead (Conc/DeadObs.v): release/acquire machine with stale reads, a second dropping thread in the release sequence *)
+Require MRB.Conc.DeadObs.
+Theorem C07_dead_only_after_drop :
+  forall (k : nat) (acq rel xacq zacq zrel : bool) (script : list (DeadObs.tid * nat)), let c := DeadObs.exec k acq rel xacq zacq zrel script in DeadObs.saw_dead c -> DeadObs.dropped c /\ DeadObs.dw c = k /\ List.map DeadObs.ival (DeadObs.I c) = List.seq 0 (S k).
+Proof. exact DeadObs.dead_only_after_drop. Qed.
+Print Assumptions C07_dead_only_after_drop.
+
+Theorem C07_dead_implies_published_visible :
+  forall (k : nat) (acq rel xacq zacq zrel : bool) (script : list (DeadObs.tid * nat)), acq = true -> rel = true -> let c := DeadObs.exec k acq rel xacq zacq zrel script in DeadObs.race c = false /\ (DeadObs.saw_dead c -> DeadObs.dw c <= DeadObs.vd (DeadObs.V (DeadObs.Y c)) /\ length (DeadObs.I c) - 1 <= DeadObs.vi (DeadObs.V (DeadObs.Y c))) /\ (DeadObs.idx_read c -> DeadObs.n (DeadObs.Y c) = k /\ DeadObs.n (DeadObs.Y c) = DeadObs.ival (List.last (DeadObs.I c) DeadObs.dI)).
+Proof. exact DeadObs.dead_implies_published_visible. Qed.
+Print Assumptions C07_dead_implies_published_visible.
+
